@@ -47,6 +47,7 @@ func main() {
 		list     = flag.Bool("list", false, "list properties and rules")
 		ctlJSON  = flag.String("controls-json", "", "JSON file with negative-control results to embed in evidence (written by check.sh thorough)")
 		goarch   = flag.String("goarch", "", "load with this GOARCH (thorough: 386)")
+		dump     = flag.String("dump-conds", "", "pkg,recv,name: print the atomic conditions of a function and exit")
 	)
 	flag.Parse()
 	debug.SetGCPercent(400)
@@ -61,6 +62,22 @@ func main() {
 				fmt.Printf("%s\t%s\t%s\n", id, r.Name, r.Doc)
 			}
 		}
+		return
+	}
+	if *dump != "" {
+		parts := strings.Split(*dump, ",")
+		abs, _ := filepath.Abs(*repo)
+		prog, err := LoadProgram(abs, nil)
+		if err != nil {
+			fmt.Fprintln(os.Stderr, err)
+			os.Exit(2)
+		}
+		fd := prog.Func(parts[0], parts[1], parts[2])
+		if fd == nil {
+			fmt.Fprintln(os.Stderr, "not found")
+			os.Exit(2)
+		}
+		prog.NewFuncCFG(fd).DumpConds()
 		return
 	}
 	start := time.Now()
